@@ -157,6 +157,9 @@ def check(prog, rep, tier):
     width_rule(prog, rep, 'R07.b', only=('NLRI.construct_prefix_v4', 'NLRI.construct_prefix_v6',
                                          'IPv4FlowSpec.construct_prefix'))
 
+    from .c06 import decoder_width
+    decoder_width(prog, rep, 'R07.b', 'yabgp.message.attribute.nlri.ipv6_unicast.IPv6Unicast.parse', 128, [Const(False)])
+
     # ---------------------------------------------------------------- R07.c
     cm = prog.module('yabgp.common.constants')
     f = prog.func(EVPN + '.construct_esi')
